@@ -225,9 +225,13 @@ def record_compute_features(case, call=None, stub=None, opts_obj=None, repeat=1)
     with interpose.replaced(rec.mapping()):
         try:
             # repeat > 1: the user calls again with the SAME signal array and the SAME option objects; the LAST call is the one judged
-            for _ in range(max(1, repeat)):
+            for rep in range(max(1, repeat)):
                 for lst in rec.ev.values():
                     del lst[:]
+                if repeat > 1 and case.get('k', 0) % 2 == 0:
+                    # buffer reuse: the earlier call saw the SAME array object holding another recording (the time-reversed one); the
+                    # array is refilled in place before the judged call - a result depends on the values of its arguments only
+                    sig_run[:] = sig if rep == repeat - 1 else sig[::-1]
                 df = (call or compute_features)(sig_run, fs, f_range, **opts_run)
         except Exception as ex:       # the raise is the event
             raised = type(ex).__name__ + ':' + str(ex)[:80]
@@ -241,6 +245,7 @@ def record_compute_features(case, call=None, stub=None, opts_obj=None, repeat=1)
                  'nsec': pj.rat(fk['n_seconds'], D=100000) if fk.get('n_seconds') is not None else pj.NAN,
                  'pass_type': fek.get('pass_type', 'bandpass'),
                  'mnc_tk': int(tk['min_n_cycles']) if 'min_n_cycles' in tk else -1,
+                 'bft': pj.rat(tk.get('burst_fraction_threshold', 1), D=1000, tol=0.0),
                  'mnc_bk': int(bk['min_n_cycles']) if 'min_n_cycles' in bk else -1,
                  'mbd': pj.rat(bk['min_burst_duration'], D=100000) if bk.get('min_burst_duration') is not None else pj.NAN,
                  'thr_lo': pj.rat(bk.get('amp_threshes', (1, 2))[0], D=1000), 'thr_hi': pj.rat(bk.get('amp_threshes', (1, 2))[1], D=1000),
